@@ -417,7 +417,7 @@ pub fn build(tier: &str) -> SimCheck {
         scenarios,
         oracle: Box::new(oracle),
         bound: 0,
-        limits: Limits { max_wall_s: if thorough { 2400.0 } else { 55.0 }, ..Default::default() },
+        limits: Limits { max_wall_s: if thorough { 2400.0 } else { 150.0 }, ..Default::default() },
         rule: "configuration grammar: 16 shard-id sets (contiguous up to 12 shards, not from 0, gaps, duplicates by value, non-numeric, unordered) x 7 server layouts (roles, two primaries, duplicate servers) x 8 default_shard values x 6 default_role values (incl. a capitalised one) (quick: one dimension varied at a time around the base, full cross of shard sets x default_shard) + two-pool files (first pool clean or with auth_query configured for itself only; every item of the grammar placed in the second pool) + server-side user name / password given fully or partly + 10 other defects (missing credentials, auth_query, half-configured auth_query, invalid regex, plugins / splitting without parser, min_pool_size, unqualified sharding key, two users); each file is loaded by the real config::parse + from_config in its own process; accepted files are then served: one transaction per (shard 0..n-1, role), one with no shard selected, two after SET SHARD to a number that is not configured (refused: the selection must be unchanged), one more per shard after an idle gap (health check on checkout), SHOW DATABASES/POOLS/STATS/SERVERS/BANS/CONFIG, BAN/UNBAN".into(),
         assumptions: vec!["reference predicate 'unservable' is the property's own list; rejecting a file is always safe".into()],
     }
